@@ -15,7 +15,7 @@ def rec(detail, **kw):
     return d
 
 
-def build(tagging, container, governor):
+def build(tagging, container, governor, govmode='req'):
     from pyasn1.type import univ, namedtype, opentype, tag, char
     inner_seq = univ.Sequence(componentType=namedtype.NamedTypes(
         namedtype.NamedType('x', univ.Integer()), namedtype.OptionalNamedType('y', univ.OctetString())))
@@ -37,8 +37,15 @@ def build(tagging, container, governor):
         blob = namedtype.NamedType('blob', any_, openType=ot)
     else:
         blob = namedtype.NamedType('blob', univ.SetOf(componentType=any_), openType=ot)
-    cls = univ.Sequence if container != 'set' else univ.Set
-    spec = cls(componentType=namedtype.NamedTypes(namedtype.NamedType('id', gov), blob))
+    cls = univ.Sequence if container not in ('set', 'set-setof') else univ.Set
+    if govmode == 'req':
+        idt = namedtype.NamedType('id', gov)
+    elif govmode == 'default':
+        # the governing component is DEFAULT and holds its default: no codec puts it on the wire
+        idt = namedtype.DefaultedNamedType('id', gov.clone(list(keys)[0]))
+    else:
+        idt = namedtype.OptionalNamedType('id', gov)
+    spec = cls(componentType=namedtype.NamedTypes(idt, blob))
     return spec, keys, inner_seq
 
 
@@ -61,18 +68,46 @@ def run(tier):
     fails, n = [], 0
     codecs = [('BER', lambda v: be.encode(v), bd), ('BER-indef', lambda v: be.encode(v, defMode=False), bd),
               ('CER', lambda v: ce.encode(v), cd), ('DER', lambda v: de.encode(v), dd)]
-    for tagging, container, governor in itertools.product(('untagged', 'implicit', 'explicit'), ('single', 'setof', 'set'),
-                                                          ('int', 'oid')):
-        if container == 'set' and tagging == 'untagged':
+    for tagging, container, governor, govmode in itertools.product(
+            ('untagged', 'implicit', 'explicit'), ('single', 'setof', 'set', 'set-setof'), ('int', 'oid'),
+            ('req', 'default', 'absent')):
+        if container in ('set', 'set-setof') and tagging == 'untagged':
             continue        # an untagged ANY is not a legal SET member (tags must be distinct)
-        cont = 'single' if container == 'set' else container
-        spec, keys, inner_seq = build(tagging, container, governor)
+        if tagging == 'untagged' and govmode != 'req':
+            continue        # an untagged ANY after an OPTIONAL/DEFAULT component is ambiguous (not a legal type)
+        spec, keys, inner_seq = build(tagging, container, governor, govmode)
+        if govmode == 'absent':
+            # OPTIONAL governing component that is absent: nothing to resolve by -- the field stays as captured, and the
+            # decoder does not refuse the (valid) encoding
+            from pyasn1.type import univ as _u
+            v = spec.clone()
+            raw = be.encode(_u.Integer(12))
+            try:
+                if container in ('setof', 'set-setof'):
+                    v['blob'].append(_u.Any(raw).subtype(**({} if tagging == 'untagged' else {
+                        tagging + 'Tag': spec['blob'].componentType.tagSet[-1]})) if False else raw)
+                else:
+                    v['blob'] = raw
+                e = be.encode(v)
+                n += 1
+                r, rest = bd.decode(e, asn1Spec=spec, decodeOpenTypes=True)
+                got = r['blob'][0] if container in ('setof', 'set-setof') else r['blob']
+                if not isinstance(got, _u.Any) or rest:
+                    fails.append(rec('absent governing component: field came back as %s' % got.__class__.__name__,
+                                     tagging=tagging, container=container, constructed=False))
+            except Exception as ex:
+                fails.append(rec('absent OPTIONAL governing component: %s: %s' % (type(ex).__name__, str(ex)[:100]),
+                                 tagging=tagging, container=container, constructed=False, govmode=govmode))
+            continue
         for key, inner in inner_values(keys, inner_seq):
+            if govmode == 'default' and key != list(keys)[0]:
+                continue
             constructed = not isinstance(inner, (univ.Integer, univ.OctetString))
             v = spec.clone()
-            v['id'] = key
+            if govmode != 'default':
+                v['id'] = key
             try:
-                if container == 'setof':
+                if container in ('setof', 'set-setof'):
                     v['blob'].append(inner)
                     v['blob'].append(inner)
                 else:
@@ -93,9 +128,9 @@ def run(tier):
                 # 1. resolution on
                 try:
                     r, rest = dec.decode(e, asn1Spec=spec, decodeOpenTypes=True)
-                    got = r['blob'][0] if container == 'setof' else r['blob']
+                    got = r['blob'][0] if container in ('setof', 'set-setof') else r['blob']
                     ok = (got == inner) and got.__class__ is inner.__class__ and not rest
-                    if container == 'setof':
+                    if container in ('setof', 'set-setof'):
                         ok = ok and len(r['blob']) == 2 and r['blob'][1] == inner
                     if not ok:
                         fails.append(rec('%s: decodeOpenTypes=True gives %r instead of the typed inner value' % (
@@ -109,7 +144,7 @@ def run(tier):
                 n += 1
                 try:
                     r, rest = dec.decode(e, asn1Spec=spec)
-                    raw = r['blob'][0] if container == 'setof' else r['blob']
+                    raw = r['blob'][0] if container in ('setof', 'set-setof') else r['blob']
                     want = enc(inner)
                     if bytes(raw) != want or rest:
                         fails.append(rec('%s: with resolution off the field holds %s, the encoding of the inner value is %s'
@@ -124,7 +159,7 @@ def run(tier):
                 try:
                     override = {key: univ.Any()}
                     r, rest = dec.decode(e, asn1Spec=spec, openTypes=override, decodeOpenTypes=True)
-                    got = r['blob'][0] if container == 'setof' else r['blob']
+                    got = r['blob'][0] if container in ('setof', 'set-setof') else r['blob']
                     if not isinstance(got, univ.Any):
                         fails.append(rec('%s: openTypes override ignored (got %s)' % (desc, got.__class__.__name__), codec=cname,
                                          tagging=tagging, container=container, constructed=constructed))
